@@ -74,6 +74,11 @@ def _apply(r, node, kind, p):
     T = gen.Tok
     if kind == "enum":
         w = r.choice(["NOPE", "Bogus", "zzz"])
+        if r.random() < 0.25:
+            # a word that only LOOKS like a member: long s (U+017F) stays itself when lower-cased
+            ms = [m for m in p.enum_members_lower() if isinstance(m, str) and "s" in m]
+            if ms:
+                w = r.choice(ms).replace("s", "\u017f", 1)
         if w.lower() in p.enum_members_lower():
             return None
         it = gen.Item("attr", p.key, shape="fault:enum", toks=[T("word", w)], value=w)
